@@ -172,7 +172,7 @@ Clauses(S, P, hasPrev, TauSet) ==   \* S = this solve's observation, P = previou
       c01e == IF doCert /\ S.resid_mineig < -Tol(0, 0) THEN {<<"C01", "residual-not-psd", S.resid_mineig>>} ELSE {}
       c01f == IF doCert /\ \E r \in 1..Len(lmis) : S.dual_mineig[lmis[r]] < -Tol(0, 0)
               THEN {<<"C01", "lmi-multiplier-not-psd", 0>>} ELSE {}
-      c01g == IF solved /\ haveDuals /\ S.resid_shape # <<np, np>> THEN {<<"C01", "residual-shape", 0>>} ELSE {}
+      c01g == IF solved /\ S.resid_shape # <<np, np>> THEN {<<"C01", "residual-shape", 0>>} ELSE {}
       \* ---------------- C02: the primal instance
       coordsOK == solved /\ Len(S.coords) = np /\ \A i \in 1..np : Len(S.coords[i]) > 0
       dim == IF coordsOK /\ np > 0 THEN Len(S.coords[1]) ELSE 0
